@@ -183,6 +183,8 @@ def main(mod, argv):
     ap.add_argument('--workers', type=int,
                     default=int(os.environ.get('VERIF_WORKERS', '0')) or None)
     ap.add_argument('--dump-digests', help='write {run index: digest} of the batch as JSON')
+    ap.add_argument('--hyp-digest', help='print the digest of Hypothesis process(es) i,j,..')
+    ap.add_argument('--no-hyp', action='store_true')
     ap.add_argument('--no-selftest', action='store_true')
     ap.add_argument('--no-evidence', action='store_true')
     a = ap.parse_args(argv)
@@ -203,6 +205,16 @@ def main(mod, argv):
         return 0
     if a.digests:
         return print_digests(mod, verif_seed, tier, [int(x) for x in a.digests.split(',')])
+    if a.hyp_digest:
+        from . import hyp
+        warm_up()
+        h = mod.HYP
+        only = [int(x) for x in a.hyp_digest.split(',')]
+        out = hyp.run_phase(mod.PROP, h['want'], h['force_2d'], verif_seed, tier,
+                            h[tier][0], h[tier][1], 1, only=only)
+        for i, r in zip(only, out):
+            print(f"HYPDIGEST {i} {r.get('digest')}")
+        return 0
 
     cfg = dict(mod.TIERS[tier])
     n_runs = a.runs or int(os.environ.get('VERIF_RUNS', '0') or 0) or cfg['runs']
@@ -312,6 +324,59 @@ def main(mod, argv):
         if r['violations']:
             viol_runs.append(i)
 
+    # ---- second generator: Hypothesis processes (call-history machines only)
+    hyp_info = None
+    hyp_viol = []
+    if getattr(mod, 'HYP', None) and not a.no_hyp:
+        from . import hyp
+        h = mod.HYP
+        n_procs, per_proc = h[tier]
+        if a.runs or os.environ.get('VERIF_RUNS'):
+            per_proc = max(10, min(per_proc, n_runs // max(1, n_procs)))
+        t_h = time.time()
+        try:
+            hres = hyp.run_phase(mod.PROP, h['want'], h['force_2d'], verif_seed, tier,
+                                 n_procs, per_proc, workers)
+        except Exception as e:
+            print(f"HARNESS-ERROR: Hypothesis phase failed: {e!r}")
+            return 2
+        bad = [r for r in hres if 'harness_error' in r]
+        if bad:
+            print(f"HARNESS-ERROR: Hypothesis process (seed {bad[0]['seed']}) raised inside "
+                  f"the simulator:\n{bad[0]['harness_error']}")
+            return 2
+        hyp_info = dict(processes=n_procs, examples=sum(r['examples'] for r in hres),
+                        valid_examples=sum(r['valid'] for r in hres),
+                        operations=sum(r['ops'] for r in hres),
+                        distinct_signatures_summed_over_processes=sum(
+                            r['distinct'] for r in hres),
+                        with_buffer_growth=sum(r['grow'] for r in hres),
+                        with_restart=sum(r['set_pva'] for r in hres),
+                        with_predict=sum(r['predicts'] for r in hres),
+                        wall_s=round(time.time() - t_h, 1),
+                        hypothesis_version=hyp.hypothesis.__version__)
+        hyp_viol = [(p, r['violation']) for p, r in enumerate(hres) if r['violation']]
+        if not a.no_selftest and not hyp_viol:
+            try:
+                envv = dict(os.environ, PYTHONHASHSEED='77', VERIF_SEED=str(verif_seed))
+                pr = subprocess.run([sys.executable, os.path.join(VERIF, 'simkit_main.py'),
+                                     mod.PROP, '--tier', tier, '--hyp-digest', '0']
+                                    + (['--runs', str(n_runs)] if (a.runs or os.environ.get(
+                                        'VERIF_RUNS')) else []),
+                                    env=envv, capture_output=True, text=True, timeout=2400)
+                fresh_d = [ln.split()[2] for ln in pr.stdout.splitlines()
+                           if ln.startswith('HYPDIGEST 0 ')]
+            except Exception as e:
+                print(f"HARNESS-ERROR: Hypothesis determinism self-test could not run: {e!r}")
+                return 2
+            if fresh_d != [hres[0]['digest']]:
+                print(f"HARNESS-ERROR: Hypothesis determinism self-test failed: process 0 "
+                      f"digest {hres[0]['digest'][:16]} vs fresh interpreter {fresh_d} "
+                      f"{pr.stderr[-500:]}")
+                return 2
+            hyp_info['determinism_selftest'] = dict(
+                process=0, fresh_interpreter_pythonhashseed=77, same_digest=True)
+
     # ---- violations: shrink, write replay, consult known findings
     known, _fixed = load_known()
     reported = 0
@@ -349,6 +414,22 @@ def main(mod, argv):
         print(f"  run {i} seed {r['run_seed']}: {v['class']}: {v['detail']}")
         print(f"VIOLATION property={mod.PROP} replay={path}")
         reported += 1
+    for p_i, (sc_h, v_h) in hyp_viol:
+        match = next((kf for kf in known if kf.get('property') == mod.PROP
+                      and kf.get('key') == v_h['key']), None)
+        if match is not None:
+            known_hits.setdefault(v_h['key'], match)
+            continue
+        exit_code = 1
+        if reported >= 6:
+            continue
+        res_h = mod.execute(sc_h)
+        path = write_replay(mod, sc_h, v_h, verif_seed, tier, res_h['digest'],
+                            tag=f"{mod.PROP}-{verif_seed}-{tier}-hyp{p_i}")
+        print(f"  Hypothesis process {p_i} (minimal example, {len(sc_h['ops'])} operations): "
+              f"{v_h['class']}: {v_h['detail']}")
+        print(f"VIOLATION property={mod.PROP} replay={path}")
+        reported += 1
     for key, kf in known_hits.items():
         print(f"KNOWN-FINDING: property={mod.PROP} {kf['what']} [key={key}]")
 
@@ -381,13 +462,15 @@ def main(mod, argv):
         violating_runs=len(viol_runs),
         known_finding_keys=sorted(known_hits),
         measures=dict(sorted({**extra_sum, **extra_max}.items())),
+        second_generator_hypothesis=hyp_info or 'not used by this check',
         versions=env.versions(),
     )
     evidence = dict(property_id=mod.PROP, tier=tier, seed=verif_seed, level=mod.LEVEL,
                     coverage=coverage, assumptions=desc['assumptions'],
                     wall_s=round(wall, 2), violations=len(viol_runs) - sum(
                         1 for i in viol_runs
-                        if results[i]['violations'][0]['key'] in known_hits))
+                        if results[i]['violations'][0]['key'] in known_hits) + sum(
+                        1 for _p, (_s, v_h) in hyp_viol if v_h['key'] not in known_hits))
     if not a.no_evidence:
         os.makedirs(os.path.join(VERIF, 'evidence'), exist_ok=True)
         with open(os.path.join(VERIF, 'evidence', f'{mod.PROP}.json'), 'w') as f:
@@ -397,6 +480,8 @@ def main(mod, argv):
           f"({coverage['runs_per_hour']} runs/h) unreached_probes={unreached}")
     print(f"[{mod.PROP}] faults fired: {coverage['faults_fired']}")
     print(f"[{mod.PROP}] probes hit:   {coverage['probes_hit']}")
+    if hyp_info:
+        print(f"[{mod.PROP}] hypothesis:   {hyp_info}")
     if exit_code == 0:
         print(f"[{mod.PROP}] PASS")
     return exit_code
